@@ -228,8 +228,23 @@ def gen_history(ctx, maxlen, allow_form_switch):
         else:
             ops.append("%s%d" % (r.choice("pq"), source())); nps += 1
     n = r.randrange(4, maxlen + 1)
+    quiet_src = [d for d in OK_SOURCES if d not in P.FAIL_SOURCES]
     while len(ops) < n:
         x = r.random()
+        if last_failed is False and r.random() < 0.10:
+            # the SAME compiled stylesheet object fails inside lazily evaluated / stack-disciplined machinery
+            # (global variable or param, nested call-template params, apply-imports, attribute sets, key build,
+            # sort key, number count) and is used again afterwards
+            sh = r.choice(P.LAZY_SHEETS)
+            ops.append("c%d" % sh); i = ncs; ncs += 1
+            ops.append("%s%d" % (r.choice("ppq"), r.choice(P.FAIL_SOURCES))); jf = nps; nps += 1
+            ops.append("%s%d" % (r.choice("ppq"), r.choice(quiet_src))); jk = nps; nps += 1
+            for _ in range(r.choice([1, 1, 2])):
+                ops.append(r.choice(["t%d,%d" % (i, jf), "t%d,%d" % (i, jf), "u%d,%d" % (i, r.choice(P.FAIL_SOURCES))]))
+                if r.random() < 0.3:
+                    ops.append(r.choice(["x", "i1", "o2", "sq=2", "T%d,%d" % (r.choice(OK_SHEETS), r.choice(quiet_src))]))
+                ops.append(r.choice(["t%d,%d" % (i, jk), "t%d,%d" % (i, jk), "u%d,%d" % (i, r.choice(quiet_src))]))
+            continue
         if x < 0.58 or last_failed is not False:
             if last_failed is not False and r.random() < 0.8:
                 # a failure is directly followed by successes that could observe a leak
@@ -303,6 +318,12 @@ CORPUS = [
     ["T36,6", "T1,0", "T36,8", "T36,7", "T10,0", "T1,8"],
     ["T37,6", "T0,0", "T37,8", "T37,7", "T8,0", "T0,8"],
     ["T38,6", "T39,0", "T38,8", "T39,8", "T38,7", "T39,6"],
+    # an abort INSIDE lazily evaluated / stack-disciplined machinery, then the SAME compiled stylesheet again:
+    # global variable body / select (nested globals), global param default, call-template params, apply-imports, attribute sets
+    ["c40", "c41", "p6", "p8", "t0,0", "t0,1", "t1,0", "t1,1", "u0,7", "u0,0", "u1,7", "u1,2", "t0,1", "t1,1"],
+    ["c42", "q7", "q8", "t0,0", "t0,1", "sq=0", "t0,0", "t0,1", "x", "u0,6", "u0,8"],
+    ["c43", "c44", "c45", "p7", "p0", "t0,0", "t0,1", "t1,0", "t1,1", "t2,0", "t2,1", "u0,6", "u1,6", "u2,6", "t0,1", "t1,1", "t2,1"],
+    ["c37", "c32", "c36", "p6", "p8", "t0,0", "t0,1", "t1,0", "t1,1", "t2,0", "t2,1"],
 ]
 
 
@@ -632,15 +653,35 @@ def run(ctx):
         ctx.notes["correspondence_mismatches"] = [c["what"][:300] for c in corr[:20]]
     if viol:
         viol.sort(key=lambda v: len(v["replay"]))
-        seen_w = set()
+        def reproduces(v):
+            """a difference against a new transformer must show again when the two histories are run once more
+            (a leak that depends on heap addresses may not): such replays are passed over for one that does"""
+            ls = [l for l in v["replay"].split("\n") if l.startswith("H reused ") or l.startswith("H fresh ")]
+            if len(ls) != 2:
+                return True
+            rr, _ = run_harness(impl, ls, jobs=1)
+            a, b = rr.get("reused"), rr.get("fresh")
+            if not a or not b:
+                return True
+            return (a[-1]["status"], a[-1]["hash"], a[-1]["len"], a[-1]["msg"]) != (b[-1]["status"], b[-1]["hash"], b[-1]["len"], b[-1]["msg"])
+        seen_w, tries, unstable = set(), {}, {}
         for v in viol:
-            key = re.sub(r"\d+", "N", v["what"])[:48]      # one replay per kind of failure, shortest first
+            key = re.sub(r"\d+", "N", re.sub(r"\([^)]*\)", "()", v["what"]))[:60]      # one replay per kind of failure, shortest first
             if key in seen_w or len(seen_w) >= 8:
                 continue
+            if tries.get(key, 0) < 12 and not reproduces(v):
+                tries[key] = tries.get(key, 0) + 1
+                unstable.setdefault(key, v)
+                continue
             seen_w.add(key)
+            unstable.pop(key, None)
             txt = "# C06 oracle failure: %s\n# replay: python3 check.py C06 --replay <this file>   (pool + histories for .build/api_plain)\n" % v["what"]
             txt += "\n".join(P.pool_lines()) + "\n" + v["replay"] + "\n"
             ctx.violation("oracle", txt)
+        for key, v in unstable.items():
+            if key not in seen_w:      # seen in the run, but no history of this kind showed it a second time
+                ctx.violation("oracle", "# C06 oracle failure (did not show again on a second run of the same histories: address dependent?): %s\n" % v["what"]
+                              + "\n".join(P.pool_lines()) + "\n" + v["replay"] + "\n")
     ctx.notes["oracle_failures"] = len(viol)
     if UNKNOWN_MEMBERS:
         ctx.broken.append("hook reports members the audited classification does not know: " + ", ".join(sorted(UNKNOWN_MEMBERS)))
